@@ -22,7 +22,6 @@ func NewRefStore() (ref.Store, *sql.DB, func(), error) {
 	if err != nil {
 		return nil, nil, nil, err
 	}
-	db.SetMaxOpenConns(1)
 	for _, stmt := range refsql.CreateTableStmts {
 		if _, err := db.Exec(stmt); err != nil {
 			db.Close()
